@@ -35,7 +35,9 @@ META = {
     "(C39_parse, C39_rendered); witnesses that a value containing a quote or an escape is cut or not unescaped by the "
     "non-greedy regex (C39_witness_quote, C39_witness_escaped; known finding D23q).  The regex string, the expression the "
     "child environment starts from and the argv expression are regenerated from pydra/environments/lmod.py on every run "
-    "and pinned by `rfl` (C39_regex_pinned, C39_source_pinned, C39_space_pinned).",
+    "and pinned by `rfl` (C39_regex_pinned, C39_source_pinned, C39_space_pinned).  The failure test on the command's return code is regenerated "
+    "and shown to fail on every non-zero status, death by signal included (C39_rc_pinned, C39_nonzero_fails); the end-to-end "
+    "runs include commands that exit non-zero or kill themselves.",
     "note": "Trusted: Lean kernel; hand-written matcher for the regex (compared with CPython's re on the extracted regex string on "
     "every run); the fake lmod and the dumper; /bin/sh (dash) resets PWD, which is therefore excluded from the comparison.",
     "rule": "parser case = text; e2e case = (caller environment, intended assignments with quoting/spelling per line, junk lines, argv); "
@@ -63,6 +65,8 @@ OBLIGATIONS = [
         "C39_parse",
         "C39_rendered",
         "C39_plain_unescaped",
+        "C39_rc_pinned",
+        "C39_nonzero_fails",
         "C39_witness_quote",
         "C39_witness_escaped",
         "C39_witness_pinned_env",
@@ -118,7 +122,9 @@ def gen_e2e(rng, p_quotey: float) -> dict:
         )
     junk = rng.sample(["import os\n", "_mlstatus = True\n", "# os.environ\n", "os.environ.get('HOME')\n", "__x = 'os.environ'\n", "\n"], rng.choice([0, 1, 2]))
     argv = [rng.choice(["a", "-x", "--flag=1", "plain", "7", "é"]) for _ in range(rng.choice([0, 1, 2, 3]))]
-    return {"kind": "e2e", "caller": caller, "lines": lines, "junk": junk, "junk_pos": rng.randrange(3), "argv": argv}
+    # how the executed command ends: status 0, a non-zero status, or death by a signal (negative return code)
+    end = ["exit", 0] if rng.random() < 0.75 else rng.choice([["exit", 1], ["exit", 3], ["exit", 255], ["kill", 15], ["kill", 9], ["kill", 2]])
+    return {"kind": "e2e", "caller": caller, "lines": lines, "junk": junk, "junk_pos": rng.randrange(3), "argv": argv, "end": end}
 
 
 def render_value(l: dict) -> str:
@@ -221,12 +227,15 @@ class Rig:
     def fixed_env(self) -> dict:
         return {"MODULESHOME": str(self.home), "PYDRA_HASH_CACHE": str(self.hash_cache)}
 
-    def run(self, caller: dict, text: str | None, argv: list[str]):
+    def run(self, caller: dict, text: str | None, argv: list[str], end=None):
         """text None = native environment.  Returns (child argv, child env, exception tag, lmod argv)"""
         from pydra.environments import lmod, native
 
-        for f in (self.argv_file, self.env_file, self.lmod_argv):
+        ctl = Path(str(self.argv_file) + ".ctl")
+        for f in (self.argv_file, self.env_file, self.lmod_argv, ctl):
             f.unlink(missing_ok=True)
+        if end and end != ["exit", 0]:
+            ctl.write_text(f"{end[0]} {end[1]}\n")
         self.n += 1
         cache = self.root / f"cache{self.n}"
         env = dict(caller)
@@ -256,13 +265,15 @@ def run_e2e(ctx, rig: Rig, cases: list[dict]):
     for c in cases:
         text = render_output(c)
         n_argv, n_env, n_exc, _ = rig.run(c["caller"], None, c["argv"])
-        l_argv, l_env, l_exc, lm_argv = rig.run(c["caller"], text, c["argv"])
+        l_argv, l_env, l_exc, lm_argv = rig.run(c["caller"], text, c["argv"], c.get("end"))
         impls.append({"text": text, "native": (n_argv, n_env, n_exc), "lmod": (l_argv, l_env, l_exc), "lmod_argv": lm_argv})
     q = []
     for c, i in zip(cases, impls):
         caller = dict(c["caller"])
         caller.update(rig.fixed_env())
         q.append({"op": "lmod_env", "caller": [[k, v] for k, v in caller.items()], "text": i["text"]})
+        end = c.get("end") or ["exit", 0]
+        q.append({"op": "rc_fails", "env": "lmod", "rc": end[1] if end[0] == "exit" else -end[1]})
     ans = ctx.driver("Envs", q)
     for k, (c, i) in enumerate(zip(cases, impls)):
         n_argv, n_env, n_exc = i["native"]
@@ -270,19 +281,21 @@ def run_e2e(ctx, rig: Rig, cases: list[dict]):
         impl = {"env": canon_env(l_env), "argv_same": l_argv == n_argv and n_exc is None, "exc": l_exc}
         model = None
         if ans is not None:
-            a = ans[k]
-            if "error" in a:
-                ctx.tie_broken.append({"kind": "model-driver", "detail": a["error"], "case": c})
+            a, rcf = ans[2 * k], ans[2 * k + 1]
+            if "error" in a or "error" in rcf:
+                ctx.tie_broken.append({"kind": "model-driver", "detail": a.get("error") or rcf.get("error"), "case": c})
             else:
-                model = {"env": sorted(p for p in a["env"] if p[0] != "PWD"), "argv_same": True, "exc": None}
+                model = {"env": sorted(p for p in a["env"] if p[0] != "PWD"), "argv_same": True, "exc": "RuntimeError" if rcf["fails"] else None}
         # spec oracle (independent of the model): caller's environment updated by the intended assignments, in order
         want = dict(c["caller"])
         want.update(rig.fixed_env())
         for l in c["lines"]:
             want[l["k"]] = l["v"]
         want.pop("PWD", None)
+        end = c.get("end") or ["exit", 0]
+        ctx.count(f"e2e:end={end[0]}{end[1]}")
         spec_ok = (
-            l_exc is None
+            l_exc == (None if end == ["exit", 0] else "RuntimeError")  # any non-zero status or a signal is a failure
             and n_exc is None
             and l_env is not None
             and canon_env(l_env) == sorted([k, v] for k, v in want.items())
@@ -355,7 +368,7 @@ def correspondence(ctx):
     still = l_env is not None and (l_env.get("Q1") != "it's" or l_env.get("Q2") != "it's" or l_env.get("B") != "a\\b")
     if any(f["id"] == "D23q" for f in ctx.known()):
         ctx.finding("D23q", still, f"child sees Q1={l_env.get('Q1')!r} Q2={l_env.get('Q2')!r} B={l_env.get('B')!r}" if l_env else f"no child env ({l_exc})")
-    run_e2e(ctx, rig, [W_INHERIT, W_QUOTE])
+    run_e2e(ctx, rig, [W_INHERIT, W_QUOTE, dict(W_INHERIT, end=["kill", 9]), dict(W_INHERIT, end=["exit", 2])])
     n_e2e = ctx.pick(220, 1200)
     run_e2e(ctx, rig, [gen_e2e(ctx.rng, 0.25) for _ in range(n_e2e)])
     n_p = ctx.pick(4000, 60000)
